@@ -128,6 +128,54 @@ Lemma wf_vars_block b D : wf_block D b = true ->
   forall v, In v (vars_of b) -> In v D \/ In v (alldefs b).
 Proof. apply block_wf_vars_of_ops. apply Forall_forall. intros o _. apply wf_vars_op. Qed.
 
+(* ------------------------------------------------------------------ the scope invariant *)
+Lemma closedI_mono D1 D2 Sc : (forall v, In v D1 -> In v D2) -> closedI D1 Sc -> closedI D2 Sc.
+Proof. intros Hi H v p Hin. destruct (H v p Hin) as [H1 H2]. split; [apply Hi; exact H1|intros u Hu; apply Hi, H2; exact Hu]. Qed.
+
+Lemma defs_okI_upd_fresh D Sc e x val : closedI D Sc -> ~ In x D -> defs_okI Sc e -> defs_okI Sc (upd e x val).
+Proof.
+  intros Hc Hx Hs v p Hin. destruct (Hc v p Hin) as [Hv Hu].
+  rewrite upd_other by (intros ->; contradiction). rewrite (Hs v p Hin).
+  apply (eval_pexpr_agree (eq x)).
+  - intros y Hy. symmetry. apply upd_other. congruence.
+  - intros u Hin2 Heq. subst u. apply Hx. apply Hu. exact Hin2.
+Qed.
+
+Lemma inv_after_op o D Sc e :
+  wf_op D o = true -> defs_okI Sc e -> closedI D Sc ->
+  defs_okI (defs_top [o] ++ Sc) (fst (exec_op o e)) /\ closedI (push D o) (defs_top [o] ++ Sc).
+Proof.
+  intros Hwf Hs Hc. destruct o as [d p|i a|iv lb ub st body].
+  - cbn [wf_op] in Hwf. apply andb_true_iff in Hwf as [Hu Hd].
+    apply negb_true_iff, memb_not_In in Hd.
+    assert (Hup : forall u, In u (uses_p p) -> In u D) by (intros u Hin; eapply forallb_memb_In; eassumption).
+    cbn [defs_top app push exec_op fst]. split.
+    + intros v q [Heq|Hin].
+      * inversion Heq; subst v q. rewrite upd_same. apply (eval_pexpr_agree (eq d)).
+        -- intros y Hy. symmetry. apply upd_other. congruence.
+        -- intros u Hin Heq2. subst u. apply Hd, Hup. exact Hin.
+      * apply (defs_okI_upd_fresh D Sc e d _ Hc Hd Hs). exact Hin.
+    + intros v q [Heq|Hin].
+      * inversion Heq; subst v q. split; [left; reflexivity|intros u Hu2; right; apply Hup; exact Hu2].
+      * destruct (Hc v q Hin) as [H1 H2]. split; [right; exact H1|intros u Hu2; right; apply H2; exact Hu2].
+  - cbn [defs_top app push exec_op fst]. split; assumption.
+  - rewrite env_For. cbn [defs_top app push]. split; assumption.
+Qed.
+
+Lemma inv_after_block b : forall D Sc e,
+  wf_block D b = true -> defs_okI Sc e -> closedI D Sc ->
+  defs_okI (defs_top b ++ Sc) (fst (exec_block b e)) /\ closedI (scope_after D b) (defs_top b ++ Sc).
+Proof.
+  induction b as [|o b IH]; intros D Sc e Hwf Hs Hc; [split; assumption|].
+  rewrite wf_block_cons in Hwf. apply andb_true_iff in Hwf as [H1 H2].
+  destruct (inv_after_op o D Sc e H1 Hs Hc) as [Hs1 Hc1].
+  destruct (IH _ _ _ H2 Hs1 Hc1) as [Hs2 Hc2].
+  rewrite env_cons. cbn [scope_after fold_left]. fold (scope_after (push D o) b).
+  rewrite defs_top_cons. split.
+  - intros v p Hin. apply Hs2. rewrite !in_app_iff in *. tauto.
+  - intros v p Hin. apply Hc2. rewrite !in_app_iff in *. tauto.
+Qed.
+
 (* ------------------------------------------------------------------ rules are sound in context *)
 Definition inner_defs (o : op) : list var :=
   match o with For iv _ _ _ body => iv :: alldefs body | _ => [] end.
@@ -137,8 +185,8 @@ Definition rule_sound (f : scope -> op -> option (list op)) (fresh : var) : Prop
     f Sc o = Some ops ->
     wf_op D o = true ->
     NoDup (alldefs_op o) -> (forall v, In v D -> ~ In v (alldefs_op o)) ->
-    incl (map fst Sc) D ->
-    scope_ok Sc e ->
+    closedI D Sc ->
+    defs_okI Sc e ->
     (forall v, In v (vars_op o) -> (v < fresh)%nat) ->
     trace ops e = snd (exec_op o e) /\
     exists F, agree F (fst (exec_block ops e)) (fst (exec_op o e)) /\
@@ -147,19 +195,19 @@ Definition rule_sound (f : scope -> op -> option (list op)) (fresh : var) : Prop
 Lemma change_step_sound fresh : rule_sound (fun Sc o => change_step Sc fresh o) fresh.
 Proof.
   intros Sc D o ops e Hr _ _ _ _ Hs Hf.
-  destruct (change_step_trace Sc fresh o ops e Hr Hs Hf) as [Ht Ha].
+  destruct (change_step_trace Sc fresh o ops e Hr (defs_okI_scope_ok _ _ Hs) Hf) as [Ht Ha].
   split; [exact Ht|]. exists (fresh_from fresh). split; [exact Ha|]. intros v Hv. left. exact Hv.
 Qed.
 
 Lemma merge_sound fresh j : rule_sound (fun Sc o => merge_loops Sc fresh j o) fresh.
 Proof.
   intros Sc D o ops e Hr Hwf Hnd Hdisj Hincl Hs Hf.
-  destruct (merge_trace Sc fresh j o ops e Hr Hs Hf) as [Ht Ha].
+  destruct (merge_trace Sc fresh j o ops e Hr (defs_okI_scope_ok _ _ Hs) Hf) as [Ht Ha].
   { intros iv lb ub st body ->. cbn [alldefs_op] in Hnd, Hdisj.
     inversion Hnd as [|? ? Hn Hd]; subst. fold (alldefs body) in *. split; [|split].
     - apply defs_top_NoDup. exact Hd.
     - intros Hin. apply Hn. apply defs_top_alldefs. exact Hin.
-    - intros Hin. apply Hincl in Hin. apply (Hdisj _ Hin). left. reflexivity. }
+    - intros Hin. apply (closedI_dom _ _ _ Hincl) in Hin. apply (Hdisj _ Hin). left. reflexivity. }
   split; [exact Ht|]. exists (fresh_from fresh). split; [exact Ha|]. intros v Hv. left. exact Hv.
 Qed.
 
@@ -203,7 +251,7 @@ Proof.
         * apply HdD. exact Hx.
         * apply Hdpre. exact Hx.
     - intros u Hu. rewrite forallb_forall in G. specialize (G u Hu). apply in_scope_In in G.
-      apply Hincl in G. split; [|split].
+      apply (closedI_dom _ _ _ Hincl) in G. split; [|split].
       + intros ->. apply HivD. exact G.
       + intros ->. apply HdD. exact G.
       + intros Hin. apply defs_top_alldefs in Hin. apply (Hdisj _ G). right. apply in_or_app. left. exact Hin. }
@@ -217,12 +265,192 @@ Proof.
   apply in_or_app. right. left. reflexivity.
 Qed.
 
+Lemma alldefs_vars_op_b o v : In v (alldefs_op o) -> In v (vars_op o).
+Proof.
+  induction o as [d p|i a|iv lb ub st body IH] using op_ind'; cbn; intros H.
+  - destruct H as [<-|[]]. left; reflexivity.
+  - contradiction.
+  - destruct H as [<-|H]; [left; reflexivity|]. do 4 right.
+    apply in_flat_map in H as [o [Ho Hv]]. apply in_flat_map. exists o. split; [exact Ho|].
+    rewrite Forall_forall in IH. apply IH; assumption.
+Qed.
+Lemma alldefs_vars_b b v : In v (alldefs b) -> In v (vars_of b).
+Proof.
+  unfold alldefs, vars_of. intros H. apply in_flat_map in H as [o [Ho Hv]]. apply in_flat_map.
+  exists o. split; [exact Ho|apply alldefs_vars_op_b; exact Hv].
+Qed.
+
+Lemma in_lookup_some Sc v : In v (map fst Sc) -> exists p, lookup Sc v = Some p.
+Proof.
+  induction Sc as [|[x q] Sc IH]; [intros []|]. cbn. destruct (Nat.eqb x v) eqn:E; [eauto|].
+  intros [H|H]; [apply Nat.eqb_neq in E; contradiction|apply IH; exact H].
+Qed.
+
+(* the loop with the dim erased and its uses redirected to w computes the same trace as the original loop,
+   provided w holds the value of the dim whenever the dim would have been evaluated *)
+Lemma move_dim_core fresh iv lb ub st pre d src idx post w e e0 :
+  agree (fresh_from fresh) e0 e ->
+  (forall v, In v (vars_op (For iv lb ub st (pre ++ Def d (PDim src idx) :: post))) -> (v < fresh)%nat) ->
+  d <> w -> ~ In w (alldefs post) -> ~ In d (alldefs post) ->
+  (forall x, fst (exec_block pre (upd e0 iv x)) w = eval_pexpr (fst (exec_block pre (upd e iv x))) (PDim src idx)) ->
+  snd (exec_op (For iv lb ub st (pre ++ map (subst_op d w) post)) e0) =
+  snd (exec_op (For iv lb ub st (pre ++ Def d (PDim src idx) :: post)) e).
+Proof.
+  intros Ha Hf Hdw Hw Hd Hval.
+  assert (Hlt : forall v, In v [lb; ub; st] -> e0 v = e v).
+  { intros v Hv. apply Ha. unfold fresh_from. assert ((v < fresh)%nat); [|lia]. apply Hf. cbn in *. tauto. }
+  rewrite !exec_For. cbn [snd].
+  rewrite (Hlt lb), (Hlt ub), (Hlt st) by (cbn; auto).
+  apply flat_map_ext. intros k. set (x := VInt (as_int (e lb) + k * as_int (e st))).
+  rewrite !trace_app, trace_Def.
+  assert (Hbpre : forall v, In v (vars_of pre) -> ~ fresh_from fresh v).
+  { intros v Hv. unfold fresh_from. assert ((v < fresh)%nat); [|lia]. apply Hf. cbn. do 4 right.
+    fold (vars_of (pre ++ Def d (PDim src idx) :: post)). rewrite vars_of_app. apply in_or_app. left; exact Hv. }
+  assert (Hbpost : forall v, In v (vars_of post) -> ~ fresh_from fresh v).
+  { intros v Hv. unfold fresh_from. assert ((v < fresh)%nat); [|lia]. apply Hf. cbn. do 4 right.
+    fold (vars_of (pre ++ Def d (PDim src idx) :: post)). rewrite vars_of_app, vars_of_cons.
+    apply in_or_app. right. apply in_or_app. right; exact Hv. }
+  destruct (exec_block_agree pre (fresh_from fresh) (upd e0 iv x) (upd e iv x)) as [Htpre Hag1];
+    [apply agree_upd; exact Ha|exact Hbpre|].
+  rewrite Htpre. f_equal.
+  set (ep0 := fst (exec_block pre (upd e0 iv x))) in *. set (ep := fst (exec_block pre (upd e iv x))) in *.
+  destruct (subst_block_ok d w post ep0 (upd ep0 d (ep0 w))) as [Hts _]; [|exact Hd|exact Hw|].
+  { split; [intros y Hy; symmetry; apply upd_other; exact Hy|apply upd_same]. }
+  rewrite Hts. apply (exec_block_agree post (fresh_from fresh)); [|exact Hbpost].
+  unfold ep0 at 2. rewrite (Hval x). fold ep. apply agree_upd. exact Hag1.
+Qed.
+
+Lemma move_dim_sound fresh j : rule_sound (fun Sc o => move_dim Sc fresh j o) fresh.
+Proof.
+  intros Sc D o ops e Hr Hwf Hnd Hdisj Hcl Hs Hf.
+  unfold move_dim in Hr.
+  destruct o as [| |iv lb ub st body]; try discriminate.
+  destruct (split_at j body) as [[[pre x] post]|] eqn:Esp; [|discriminate].
+  destruct x as [d p| |]; try discriminate. destruct p as [| | |src idx| |]; try discriminate.
+  apply split_at_spec in Esp as [-> _].
+  set (Sin := defs_top pre) in *.
+  destruct (cst_of (Sin ++ Sc) idx) as [iz|] eqn:Eidx; [|discriminate].
+  destruct (negb (forallb (dim_uses_ok d) post)); [discriminate|].
+  destruct (resolve_dim 8 Sin Sc src iz) as [r|] eqn:Eres; [|discriminate].
+  rewrite wf_op_For in Hwf. repeat (apply andb_true_iff in Hwf as [Hwf ?]).
+  match goal with Hb : wf_block (iv :: D) _ = true |- _ =>
+    rewrite wf_block_app, wf_block_cons in Hb; apply andb_true_iff in Hb as [Hwpre Hb];
+    apply andb_true_iff in Hb as [Hwd Hwpost] end.
+  set (Dp := scope_after (iv :: D) pre) in *.
+  cbn [wf_op uses_p forallb] in Hwd. rewrite andb_true_r in Hwd.
+  apply andb_true_iff in Hwd as [Hwd HdDp]. apply andb_true_iff in Hwd as [Hsrc Hidx].
+  apply memb_In in Hsrc.
+  assert (HivD : ~ In iv D) by (apply memb_not_In, negb_true_iff; assumption).
+  cbn [alldefs_op] in Hnd, Hdisj. fold (alldefs (pre ++ Def d (PDim src idx) :: post)) in *.
+  rewrite alldefs_app, alldefs_cons in Hnd, Hdisj. cbn [alldefs_op app] in Hnd, Hdisj.
+  inversion Hnd as [|? ? Hniv Hnd']; subst.
+  assert (HdD : ~ In d D).
+  { intros Hin. apply (Hdisj _ Hin). right. apply in_or_app. right. left. reflexivity. }
+  assert (Hdpost : ~ In d (alldefs post)).
+  { apply NoDup_app_r in Hnd'. inversion Hnd'; assumption. }
+  assert (HDpost : forall v, In v D -> ~ In v (alldefs post)).
+  { intros v Hv Hin. apply (Hdisj _ Hv). right. apply in_or_app. right. right. exact Hin. }
+  assert (HDpre : forall v, In v D -> ~ In v (map fst (defs_top pre))).
+  { intros v Hv Hin. apply defs_top_alldefs in Hin. apply (Hdisj _ Hv). right. apply in_or_app. left. exact Hin. }
+  assert (Hbpre : forall v, In v (vars_of pre) -> (v < fresh)%nat).
+  { intros v Hv. apply Hf. cbn. do 4 right. fold (vars_of (pre ++ Def d (PDim src idx) :: post)).
+    rewrite vars_of_app. apply in_or_app. left; exact Hv. }
+  assert (Hfrpre : ~ In fresh (map fst (defs_top pre))).
+  { intros Hin. apply defs_top_vars in Hin. specialize (Hbpre _ Hin). lia. }
+  assert (Hivf : (iv < fresh)%nat) by (apply Hf; left; reflexivity).
+  assert (Hdf : (d < fresh)%nat).
+  { apply Hf. cbn. do 4 right. fold (vars_of (pre ++ Def d (PDim src idx) :: post)).
+    rewrite vars_of_app, vars_of_cons. apply in_or_app. right. left. reflexivity. }
+  (* the scope invariant at the position of the dim, in every iteration *)
+  assert (Hinv : forall x, defs_okI (Sin ++ Sc) (fst (exec_block pre (upd e iv x))) /\ closedI Dp (Sin ++ Sc)).
+  { intros x. apply inv_after_block; [exact Hwpre| |].
+    - apply (defs_okI_upd_fresh D); assumption.
+    - apply (closedI_mono D); [intros v Hv; right; exact Hv|exact Hcl]. }
+  assert (Hdimval : forall x r', resolve_dim 8 Sin Sc src iz = Some r' -> repl_safe r' = true ->
+            eval_pexpr (fst (exec_block pre (upd e iv x))) (PDim src idx) =
+            VInt (eval_repl (fst (exec_block pre (upd e iv x))) r')).
+  { intros x r' Hr' Hsafe. destruct (Hinv x) as [Hok _]. set (ep := fst (exec_block pre (upd e iv x))) in *.
+    cbn [eval_pexpr]. rewrite (defs_okI_scope_ok _ _ Hok _ _ Eidx). cbn [as_int].
+    rewrite (move_dim_value 8 Sin Sc src iz r' ep Hr' (defs_okI_defs_ok _ _ Hok) Hsafe). reflexivity. }
+  assert (HframeD : forall x v, In v D -> fst (exec_block pre (upd e iv x)) v = e v).
+  { intros x v Hv. rewrite exec_block_frame by (apply HDpre; exact Hv).
+    apply upd_other. intros ->. contradiction. }
+  destruct r as [z|v|s i|v c]; try discriminate.
+  - (* static size: a new constant in front of the loop *)
+    inversion Hr; subst ops; clear Hr.
+    set (e0 := upd e fresh (VInt z)).
+    assert (Ha0 : agree (fresh_from fresh) e0 e).
+    { unfold e0. apply agree_upd_l; [apply agree_refl|unfold fresh_from; lia]. }
+    split.
+    + rewrite trace_Def. cbn [eval_pexpr]. fold e0. rewrite trace_cons, trace_nil, app_nil_r.
+      apply (move_dim_core fresh); try assumption.
+      * lia.
+      * intros Hin. apply alldefs_vars_b in Hin.
+        assert ((fresh < fresh)%nat); [|lia]. apply Hf. cbn. do 4 right.
+        fold (vars_of (pre ++ Def d (PDim src idx) :: post)). rewrite vars_of_app, vars_of_cons.
+        apply in_or_app. right. apply in_or_app. right. exact Hin.
+      * intros x. rewrite (Hdimval x _ Eres eq_refl). cbn [eval_repl].
+        rewrite exec_block_frame by exact Hfrpre. rewrite upd_other by lia. unfold e0. apply upd_same.
+    + exists (fresh_from fresh). split; [|intros v Hv; left; exact Hv].
+      rewrite !env_cons, env_For, env_Def. cbn [fst exec_block eval_pexpr]. rewrite env_For. exact Ha0.
+  - (* an existing value that dominates the loop *)
+    destruct (in_scope Sc v) eqn:Ev; [|discriminate]. inversion Hr; subst ops; clear Hr.
+    assert (HvD : In v D) by (apply (closedI_dom _ _ _ Hcl), in_scope_In; exact Ev).
+    split.
+    + rewrite trace_cons, trace_nil, app_nil_r.
+      apply (move_dim_core fresh); try assumption.
+      * apply agree_refl.
+      * intros ->. contradiction.
+      * apply HDpost. exact HvD.
+      * intros x. rewrite (Hdimval x _ Eres eq_refl). cbn [eval_repl].
+        destruct (Hinv x) as [Hok _]. set (ep := fst (exec_block pre (upd e iv x))) in *.
+        destruct (resolve_rvar_kind 8 _ _ _ _ _ Eres) as [p [Hl [[c ->]|[s' [i' ->]]]]];
+          rewrite (defs_okI_defs_ok _ _ Hok _ _ Hl); reflexivity.
+    + exists (fun _ => False). split; [|intros v0 []].
+      rewrite !env_cons, !env_For. cbn [fst exec_block]. apply agree_refl.
+  - (* dim of a block argument: a new memref.dim in front of the loop *)
+    destruct (newdim_idx 8 Sin Sc src idx) as [ix|] eqn:Eix; [|discriminate].
+    destruct (in_scope Sc ix && negb (in_scope Sin s) && negb (Nat.eqb s iv)) eqn:G; [|discriminate].
+    inversion Hr; subst ops; clear Hr.
+    apply andb_true_iff in G as [G Gsiv]. apply andb_true_iff in G as [Gix GsSin].
+    apply negb_true_iff in Gsiv. apply Nat.eqb_neq in Gsiv.
+    assert (HixD : In ix D) by (apply (closedI_dom _ _ _ Hcl), in_scope_In; exact Gix).
+    pose proof (newdim_idx_cst 8 _ _ _ _ _ _ _ _ Eres Eidx Eix) as Hixc.
+    assert (HsD : In s D).
+    { destruct (Hinv (VInt 0)) as [_ Hcl'].
+      destruct (resolve_newdim_src 8 Sin Sc src iz s i (fun v => In v Dp) Eres Hsrc) as [HsDp Hsnone].
+      - intros v0 s' i' Hl. assert (Hin : In (v0, PDim s' i') (Sin ++ Sc)) by (apply in_or_app; left; apply lookup_In; exact Hl).
+        destruct (Hcl' _ _ Hin) as [_ Hu]. apply Hu. left. reflexivity.
+      - apply scope_after_In in HsDp as [[Hq|Hq]|Hq]; [congruence|exact Hq|].
+        exfalso. destruct (in_lookup_some _ _ Hq) as [p Hp]. rewrite lookup_app in Hsnone. fold Sin in Hp.
+        rewrite Hp in Hsnone. discriminate. }
+    set (e0 := upd e fresh (eval_pexpr e (PDim s ix))).
+    assert (Ha0 : agree (fresh_from fresh) e0 e).
+    { unfold e0. apply agree_upd_l; [apply agree_refl|unfold fresh_from; lia]. }
+    split.
+    + rewrite trace_Def. fold e0. rewrite trace_cons, trace_nil, app_nil_r.
+      apply (move_dim_core fresh); try assumption.
+      * lia.
+      * intros Hin. apply alldefs_vars_b in Hin.
+        assert ((fresh < fresh)%nat); [|lia]. apply Hf. cbn. do 4 right.
+        fold (vars_of (pre ++ Def d (PDim src idx) :: post)). rewrite vars_of_app, vars_of_cons.
+        apply in_or_app. right. apply in_or_app. right. exact Hin.
+      * intros x. rewrite (Hdimval x _ Eres eq_refl). cbn [eval_repl].
+        rewrite exec_block_frame by exact Hfrpre. rewrite upd_other by lia. unfold e0. rewrite upd_same.
+        destruct (Hinv x) as [Hok _].
+        cbn [eval_pexpr]. rewrite <- (HframeD x ix HixD), <- (HframeD x s HsD).
+        rewrite (defs_okI_scope_ok _ _ Hok _ _ Hixc). reflexivity.
+    + exists (fresh_from fresh). split; [|intros v Hv; left; exact Hv].
+      rewrite !env_cons, env_For, env_Def. cbn [fst exec_block]. rewrite env_For. exact Ha0.
+Qed.
+
 Lemma apply_rule_sound r fresh : rule_sound (fun Sc o => apply_rule r Sc fresh o) fresh.
 Proof.
-  destruct r as [|j|j]; cbn [apply_rule].
+  destruct r as [|j|j|j]; cbn [apply_rule].
   - apply change_step_sound.
   - apply merge_sound.
   - apply hoist_sound.
+  - apply move_dim_sound.
 Qed.
 
 (* ------------------------------------------------------------------ the context lemma *)
@@ -230,8 +458,8 @@ Lemma apply_at_trace f fresh : rule_sound f fresh ->
   forall path D Sc b b' e,
     wf_block D b = true ->
     NoDup (alldefs b) -> (forall v, In v D -> ~ In v (alldefs b)) ->
-    incl (map fst Sc) D ->
-    scope_ok Sc e ->
+    closedI D Sc ->
+    defs_okI Sc e ->
     (forall v, In v (vars_of b) -> (v < fresh)%nat) ->
     apply_at f path Sc b = Some b' ->
     trace b' e = trace b e.
@@ -248,10 +476,8 @@ Proof.
   set (ep := fst (exec_block pre e)).
   assert (Hndpre : NoDup (map fst (defs_top pre))).
   { apply defs_top_NoDup. apply (NoDup_app_l _ _ Hnd). }
-  assert (Hs' : scope_ok Sc' ep) by (apply scope_ok_after_block; assumption).
-  assert (Hincl' : incl (map fst Sc') D').
-  { intros v Hin. unfold Sc' in Hin. rewrite map_app in Hin. apply scope_after_In.
-    apply in_app_or in Hin as [Hin|Hin]; [right; exact Hin|left; apply Hincl; exact Hin]. }
+  destruct (inv_after_block pre D Sc e Hwpre Hs Hincl) as [Hs' Hincl'].
+  fold ep in Hs'. fold D' in Hincl'. fold Sc' in Hs', Hincl'.
   assert (Hndo : NoDup (alldefs_op o)).
   { apply NoDup_app_r in Hnd. apply (NoDup_app_l _ _ Hnd). }
   assert (Hdisj' : forall v, In v D' -> ~ In v (alldefs_op o ++ alldefs post)).
@@ -295,10 +521,8 @@ Proof.
     apply (IH (iv :: D') Sc' body body'); try assumption.
     + intros v [<-|Hin]; [exact Hniv|].
       intros Hb2. apply (Hdisj' v Hin). right. apply in_or_app. left. exact Hb2.
-    + intros v Hin. right. apply Hincl'. exact Hin.
-    + intros v z Hc. rewrite upd_other; [apply Hs'; exact Hc|].
-      intros ->. apply HivD. apply Hincl'. unfold cst_of in Hc.
-      destruct (lookup Sc' iv) eqn:E; [|discriminate]. eapply lookup_in. exact E.
+    + apply (closedI_mono D'); [intros v Hv; right; exact Hv|exact Hincl'].
+    + apply (defs_okI_upd_fresh D'); assumption.
     + intros v Hin. apply Hfo. cbn. do 4 right. exact Hin.
 Qed.
 
@@ -325,8 +549,8 @@ Proof.
   apply (apply_at_trace _ (S (maxvar b)) (apply_rule_sound r (S (maxvar b))) path args [] b b' e); try assumption.
   - apply (NoDup_app_r _ _ Hn).
   - intros v Hin. apply (NoDup_app_disj _ _ _ Hn Hin).
-  - intros v [].
-  - intros v z Hc. discriminate.
+  - intros v p [].
+  - intros v p [].
   - apply maxvar_bound.
 Qed.
 
